@@ -155,25 +155,12 @@ def run(ctx):
             spec_terms.append(gcase_term(k > 0, gap_bytes(src, k), src.gaps[k]["nxt"], False, texp, dexp, None))
             spec_meta.append((name, k, bool(src.gaps[k]["cidx"]), (texp is not None) + (dexp is not None)))
             ctx.count(("golden", name, k), bool(src.gaps[k]["cidx"]), "golden-gap")
-    mism, err = coq_eval_mismatches("cases_C03_gold", HEADER, spec_terms, "spec_chk", shard_size=300)
-    if err:
-        raise RuntimeError(err)
+    allterms = []      # (tag, term, meta), evaluated together at the end
+    for t, m in zip(spec_terms, spec_meta):
+        allterms.append(("gold", "(CSpec %s)" % t, m))
+    for t in path_terms:
+        allterms.append(("path", "(CPath %s)" % t, t))
     obs_total = sum(m[3] for m in spec_meta)
-    obs_bad = sum(spec_meta[i][3] for i in mism)
-    with_comments = sum(1 for m in spec_meta if m[2])
-    ctx.extra["spec_golden_agreement"] = {
-        "gaps_compared": len(spec_meta), "gaps_agreeing": len(spec_meta) - len(mism), "gaps_with_comments": with_comments,
-        "observations (trailing / detached+leading per gap)": obs_total, "observations_agreeing": obs_total - obs_bad,
-        "locations_compared_with_protoc (path, span, comments; after known corrections)": loc_total, "locations_agreeing": loc_agree,
-        "files": gold_names}
-    for i in mism:
-        ctx.corr_break("spec-vs-protoc-golden", {"file": spec_meta[i][0], "gap_before_token": spec_meta[i][1]}, {"term": spec_terms[i][:400]})
-    mism, err = coq_eval_mismatches("cases_C03_path", HEADER, path_terms, "path_chk", shard_size=2000)
-    if err:
-        raise RuntimeError(err)
-    for i in mism:
-        ctx.corr_break("known-protoc-corrections-vs-test-file-patterns", {"term": path_terms[i]}, {})
-
     # ---------------- generated sources
     base_ins = [{"mode": "compile", "text": h.hex()} for h in S.HAND]
     base_ins += [{"mode": "compile", "text": t.hex(), "dir": td} for _, t in S.testdata_sources(REPO)]
@@ -241,18 +228,43 @@ def run(ctx):
     ctx.extra["generated_sources_rejected"] = nfail
     ctx.sample({"source": bytes.fromhex(cases[len(CORPUS)]["text"])[:400].decode("utf8", "replace")})
     ctx.sample({"source": CORPUS[3].decode()})
-    mism, err = coq_eval_mismatches("cases_C03_go", HEADER, go_terms, "go_chk", shard_size=600)
+    def cap(terms, meta, n):
+        # the corpus comes first and is always kept; the rest is sampled
+        keep = min(len(terms), 200)
+        if len(terms) <= n:
+            return terms, meta
+        idx = list(range(keep)) + sorted(rng.shuffle(list(range(keep, len(terms))))[:n - keep])
+        return [terms[i] for i in idx], [meta[i] for i in idx]
+    go_terms, go_meta = cap(go_terms, go_meta, ctx.budget(5000, 10 ** 9))
+    sp_terms, sp_meta = cap(sp_terms, sp_meta, ctx.budget(3000, 10 ** 9))
+    ctx.extra["model_vs_implementation_cases"] = len(go_terms)
+    for t, m in zip(go_terms, go_meta):
+        allterms.append(("go", "(CGo %s)" % t, m))
+    for t, m in zip(sp_terms, sp_meta):
+        allterms.append(("spec", "(CSpec %s)" % t, m))
+    mism_all, err = coq_eval_mismatches("cases_C03", HEADER, [t for _, t, _ in allterms], "c03_chk", shard_size=700)
     if err:
         raise RuntimeError(err)
-    for i in mism:
-        c, k = go_meta[i]
-        ctx.corr_break("model-vs-implementation", {"source_hex": c["text"], "gap_before_token": k}, {"term": go_terms[i][:600]})
-    mism, err = coq_eval_mismatches("cases_C03_spec", HEADER, sp_terms, "spec_chk", shard_size=600)
-    if err:
-        raise RuntimeError(err)
+    bad = {"gold": [], "path": [], "go": [], "spec": []}
+    for i in mism_all:
+        bad[allterms[i][0]].append(allterms[i])
+    # golden validation of the specification
+    obs_bad = sum(m[3] for _, _, m in bad["gold"])
+    mism = bad["gold"]
+    with_comments = sum(1 for m in spec_meta if m[2])
+    ctx.extra["spec_golden_agreement"] = {
+        "gaps_compared": len(spec_meta), "gaps_agreeing": len(spec_meta) - len(mism), "gaps_with_comments": with_comments,
+        "observations (trailing / detached+leading per gap)": obs_total, "observations_agreeing": obs_total - obs_bad,
+        "locations_compared_with_protoc (path, span, comments; after known corrections)": loc_total, "locations_agreeing": loc_agree,
+        "files": gold_names}
+    for _, t, m in mism:
+        ctx.corr_break("spec-vs-protoc-golden", {"file": m[0], "gap_before_token": m[1]}, {"term": t[:400]})
+    for _, t, _ in bad["path"]:
+        ctx.corr_break("known-protoc-corrections-vs-test-file-patterns", {"term": t}, {})
+    for _, t, (c, k) in bad["go"]:
+        ctx.corr_break("model-vs-implementation", {"source_hex": c["text"], "gap_before_token": k}, {"term": t[:600]})
     ctx.extra["direct_oracle_observations"] = len(sp_terms)
-    for i in mism:
-        c, k, src, texp, dexp = sp_meta[i]
+    for _, _, (c, k, src, texp, dexp) in bad["spec"]:
         g = src.gaps[k]
         keys = sorted(S.classify(k > 0, g["items"], g["nxt"]))
         st, sd, sl = S.spec_out(k > 0, g["items"], g["nxt"])
